@@ -70,7 +70,7 @@ var keptLocked = []string{"/a/f", "/a/b"}
 // forwards as they are (or builds on OpenFile / Lstat, as ReadFile, ReadDir,
 // WriteFile, Glob, WalkDir).
 var keptFns = map[avfs.FnVFS]bool{
-	avfs.FnChdir: true, avfs.FnChmod: true, avfs.FnChown: true, avfs.FnChtimes: true,
+	avfs.FnChdir: true, avfs.FnChmod: true, avfs.FnChown: true, avfs.FnLchown: true, avfs.FnChtimes: true,
 	avfs.FnLstat: true, avfs.FnStat: true, avfs.FnMkdir: true, avfs.FnMkdirAll: true,
 	avfs.FnOpenFile: true, avfs.FnReadDir: true, avfs.FnReadFile: true,
 	avfs.FnRemove: true, avfs.FnRemoveAll: true, avfs.FnTruncate: true,
